@@ -1,18 +1,9 @@
 import PsyVerif.Lemmas.DepTrace
-/-! # C08 lemmas — the closed form `norm` is sound for subscripts without integer division / MOD, and the
+/-! # C08 lemmas — the closed form `norm` is sound for subscripts without integer division, and the
 two SymPy-route tests (`independent0`, `depDistance … = some 0`) are sound for such subscripts whenever the
 non-loop-variable atoms have the same value in the two iterations. -/
 namespace C08
 open MiniF
-
-/-- no integer division and no MOD anywhere in the expression -/
-def noDivMod : Expr → Bool
-  | .lit _ => true
-  | .var _ => true
-  | .idx1 _ i => noDivMod i
-  | .idx2 _ i j => noDivMod i && noDivMod j
-  | .un _ e => noDivMod e
-  | .bin op a b => op != .div && op != .mod && noDivMod a && noDivMod b
 
 /-- value of a term list under a valuation of the atoms -/
 def sumT (ρ : Expr → Int) : List (Expr × Int) → Int
@@ -159,8 +150,9 @@ theorem sumT_shift (ρ1 ρ2 : Expr → Int) (A : Expr) (δ : Int) (ts : List (Ex
 theorem smul_one (num : Int) (f : Lin) : f.smul num 1 = ⟨f.den * 1, scaleT num f.terms, num * f.k⟩ := by
   simp [Lin.smul]
 
-/-- for a subscript without `/` and MOD the closed form has denominator 1 and the Fortran value -/
-theorem norm_sound (e : Expr) (σ : Store) (h : noDivMod e = true) :
+/-- for a subscript without `/` the closed form has denominator 1 and the Fortran value (MOD calls, array
+elements, products of non-constants ... are opaque atoms) -/
+theorem norm_sound (e : Expr) (σ : Store) (h : hasDiv e = false) :
     (norm e).den = 1 ∧ eval e σ = sumT (fun a => eval a σ) (norm e).terms + (norm e).k := by
   induction e with
   | lit n => simp [norm, Lin.const, sumT, eval]
@@ -168,7 +160,7 @@ theorem norm_sound (e : Expr) (σ : Store) (h : noDivMod e = true) :
   | idx1 a i _ => simp [norm, Lin.atom, sumT]
   | idx2 a i j _ _ => simp [norm, Lin.atom, sumT]
   | un op e ih =>
-    simp only [noDivMod] at h
+    simp only [hasDiv] at h
     obtain ⟨hd, he⟩ := ih h
     cases op with
     | neg =>
@@ -178,8 +170,8 @@ theorem norm_sound (e : Expr) (σ : Store) (h : noDivMod e = true) :
     | not => simp [norm, Lin.atom, sumT]
     | abs => simp [norm, Lin.atom, sumT]
   | bin op a b iha ihb =>
-    simp only [noDivMod, Bool.and_eq_true, bne_iff_ne, ne_eq] at h
-    obtain ⟨⟨⟨hdiv, hmod⟩, ha⟩, hb⟩ := h
+    simp only [hasDiv, Bool.or_eq_false_iff, beq_eq_false_iff_ne, ne_eq] at h
+    obtain ⟨⟨hdiv, ha⟩, hb⟩ := h
     obtain ⟨hda, hea⟩ := iha ha
     obtain ⟨hdb, heb⟩ := ihb hb
     cases op with
@@ -206,7 +198,6 @@ theorem norm_sound (e : Expr) (σ : Store) (h : noDivMod e = true) :
             Int.mul_add, Int.add_mul, Int.mul_comm]
         · simp [Lin.atom, sumT]
     | div => exact absurd rfl hdiv
-    | mod => exact absurd rfl hmod
     | _ => simp [norm, Lin.atom, sumT]
 
 theorem mem_smul {n d : Int} {f : Lin} {a : Expr} {c : Int} (h : (a, c) ∈ (f.smul n d).terms) :
@@ -295,13 +286,17 @@ theorem eval_agree {a : Expr} {τ1 τ2 : Store}
   · intro x hx p q; exact h x hx p q
 
 /-- `_independent_0_var` is sound when the two stores agree on the variables of both subscripts -/
-theorem indep0_sound {w o : Expr} (hw : noDivMod w = true) (ho : noDivMod o = true)
-    (h : independent0 w o = true) (τ1 τ2 : Store)
+theorem indep0_sound {w o : Expr} (h : independent0 w o = true) (τ1 τ2 : Store)
     (hag : ∀ x, (x ∈ C08.evars w ∨ x ∈ C08.evars o) → ∀ p q, τ1 (x, p, q) = τ2 (x, p, q)) :
     eval w τ1 ≠ eval o τ2 := by
+  have hw : hasDiv w = false := by
+    simp only [independent0, Bool.and_eq_true, Bool.not_eq_eq_eq_not, Bool.not_true] at h; exact h.1.1.1
+  have ho : hasDiv o = false := by
+    simp only [independent0, Bool.and_eq_true, Bool.not_eq_eq_eq_not, Bool.not_true] at h; exact h.1.1.2
   obtain ⟨hdw, hew⟩ := norm_sound w τ1 hw
   obtain ⟨hdo, heo⟩ := norm_sound o τ2 ho
-  simp only [independent0, Bool.and_eq_true, bne_iff_ne, ne_eq, hdw, hdo, Int.mul_one] at h
+  simp only [independent0, Bool.and_eq_true, bne_iff_ne, ne_eq, hdw, hdo, Int.mul_one, hw, ho, Bool.not_false,
+    true_and] at h
   obtain ⟨hst, hne, _⟩ := h
   have hc := sameTerms_coef hdw hdo hst
   have h1 : sumT (fun a => eval a τ1) (norm w).terms = sumT (fun a => eval a τ2) (norm w).terms := by
@@ -314,17 +309,22 @@ theorem indep0_sound {w o : Expr} (hw : noDivMod w = true) (ho : noDivMod o = tr
   rw [hew, heo, h1, h2]
   omega
 
-/-- distance `0` is sound: if the two subscripts have equal values in two stores that agree on every variable
-other than the loop variable, the loop variable has the same value in both -/
-theorem dist0_sound {i : Nat} {dn : List (Nat × Nat)} {w o : Expr} (hw : noDivMod w = true) (ho : noDivMod o = true)
-    (h : depDistance i dn w o = some 0) (τ1 τ2 : Store)
-    (hag : ∀ x, x ≠ i → (x ∈ C08.evars w ∨ x ∈ C08.evars o) → ∀ p q, τ1 (x, p, q) = τ2 (x, p, q))
-    (heq : eval w τ1 = eval o τ2) : τ1 (i, 0, 0) = τ2 (i, 0, 0) := by
-  obtain ⟨hdw, hew⟩ := norm_sound w τ1 hw
-  obtain ⟨hdo, heo⟩ := norm_sound o τ2 ho
+/-- what a reported distance of zero means for the closed forms -/
+theorem depDistance_zero_spec {i : Nat} {dn : List (Nat × Nat)} {w o : Expr} (h : depDistance i dn w o = some 0) :
+    hasDiv w = false ∧ hasDiv o = false ∧ i ∈ C08.evars w ++ C08.evars o ∧
+    nonAffine i (norm w) = false ∧ nonAffine i (norm o) = false ∧ coef (norm o).terms (.var i) ≠ 0 ∧
+    sameTerms (norm w) (norm o) = true ∧ (norm w).k = (norm o).k := by
   unfold depDistance at h
   split at h
+  case isTrue => exact absurd h (by simp)
+  rename_i hdiv
+  simp only [Bool.or_eq_true, not_or, Bool.not_eq_true] at hdiv
+  obtain ⟨hw, ho⟩ := hdiv
+  have hdw := (norm_sound w ⟨fun _ => 0⟩ hw).1
+  have hdo := (norm_sound o ⟨fun _ => 0⟩ ho).1
+  split at h
   case isFalse => exact absurd h (by simp)
+  rename_i hmem
   split at h
   case h_1 => exact absurd h (by simp)
   simp only [hdw, hdo, Int.mul_one] at h
@@ -343,13 +343,39 @@ theorem dist0_sound {i : Nat} {dn : List (Nat × Nat)} {w o : Expr} (hw : noDivM
   simp only [Option.some.injEq] at h
   simp only [Bool.or_eq_true, not_or, Bool.not_eq_true] at hna
   have hst' : sameTerms (norm w) (norm o) = true := by simpa using hst
-  have hc := sameTerms_coef hdw hdo hst'
   have hcg' : coef (norm o).terms (.var i) ≠ 0 := by simpa using hcg
   have hmod' : ((norm w).k - (norm o).k) % coef (norm o).terms (.var i) = 0 := by simpa using hmod
   have hk : (norm w).k = (norm o).k := by
     have := Int.emod_add_mul_ediv ((norm w).k - (norm o).k) (coef (norm o).terms (.var i))
     rw [hmod', h] at this
     omega
+  exact ⟨hw, ho, hmem, hna.1, hna.2, hcg', hst', hk⟩
+
+/-- a distance of zero is only reported when both subscripts contain the loop variable as a linear atom -/
+theorem dist0_mentions {i : Nat} {dn : List (Nat × Nat)} {w o : Expr}
+    (h : depDistance i dn w o = some 0) : i ∈ C08.evars w ∧ i ∈ C08.evars o := by
+  obtain ⟨hw, ho, _, _, _, hcg, hst, _⟩ := depDistance_zero_spec h
+  have hdw := (norm_sound w ⟨fun _ => 0⟩ hw).1
+  have hdo := (norm_sound o ⟨fun _ => 0⟩ ho).1
+  have hc := sameTerms_coef hdw hdo hst
+  have mem : ∀ e : Expr, coef (norm e).terms (.var i) ≠ 0 → i ∈ C08.evars e := by
+    intro e hne
+    by_cases hm : ∃ c, (Expr.var i, c) ∈ (norm e).terms
+    · obtain ⟨c, hc⟩ := hm
+      exact norm_atom_vars e (.var i) c hc i (by simp [C08.evars])
+    · exact absurd (coef_eq_zero_of_not_mem (fun c hc => hm ⟨c, hc⟩)) hne
+  exact ⟨mem w (by rw [hc]; exact hcg), mem o hcg⟩
+
+/-- distance `0` is sound: if the two subscripts have equal values in two stores that agree on every variable
+other than the loop variable, the loop variable has the same value in both -/
+theorem dist0_sound {i : Nat} {dn : List (Nat × Nat)} {w o : Expr}
+    (h : depDistance i dn w o = some 0) (τ1 τ2 : Store)
+    (hag : ∀ x, x ≠ i → (x ∈ C08.evars w ∨ x ∈ C08.evars o) → ∀ p q, τ1 (x, p, q) = τ2 (x, p, q))
+    (heq : eval w τ1 = eval o τ2) : τ1 (i, 0, 0) = τ2 (i, 0, 0) := by
+  obtain ⟨hw, ho, _, hna1, _, hcg', hst', hk⟩ := depDistance_zero_spec h
+  obtain ⟨hdw, hew⟩ := norm_sound w τ1 hw
+  obtain ⟨hdo, heo⟩ := norm_sound o τ2 ho
+  have hc := sameTerms_coef hdw hdo hst'
   -- valuations: atoms other than the loop variable evaluate equally
   have hshift : ∀ p ∈ (norm w).terms, (fun a => eval a τ1) p.1 =
       (fun a => eval a τ2) p.1 + (if p.1 = .var i then (τ1 (i, 0, 0) - τ2 (i, 0, 0)) else 0) := by
@@ -361,7 +387,7 @@ theorem dist0_sound {i : Nat} {dn : List (Nat × Nat)} {w o : Expr} (hw : noDivM
       intro x hx
       have hxi : x ≠ i := by
         intro he
-        have := hna.1
+        have := hna1
         simp only [nonAffine, List.any_eq_false, Bool.and_eq_true, bne_iff_ne, ne_eq, decide_eq_true_eq,
           not_and] at this
         exact this p hp hpi (he ▸ hx)
